@@ -7,7 +7,7 @@
 From Coq.Strings Require Import Byte String.
 From Coq Require Import List Arith Bool.
 Import ListNotations.
-From V Require Import lib.Bytes model.Fmt model.FmtReasons spec.FmtSpec proofs.FmtProof.
+From V Require Import lib.Bytes model.Fmt model.FmtReasons spec.FmtSpec proofs.FmtProof spec.FmtHist model.FmtHist proofs.FmtHistProof.
 
 Definition mk (ch : list node) : file := {| f_header := []; f_pkg := bs "package p"; f_nodes := [FTempl (bs "t()") ch] |}.
 
@@ -243,3 +243,87 @@ Definition c09_deep := mk [NElem (bs "span") [] false [c09_chain 201] false SpVe
 Lemma C09_convergence_guard_needed : shallow c09_deep = false /\
   bytes_eqb (fmt_write (reparse (reparse c09_deep))) (fmt_write (reparse c09_deep)) = false.
 Proof. split; vm_compute; reflexivity. Qed.
+
+(* ---------- process level: the result of formatting a file does not depend on what the process formatted before ---------- *)
+(* spec/FmtHist.v: a process is any transition function  step : St -> file text -> St * (Some text written | None rejected).
+   `templ fmt <dir>`, the language server and watch mode format many files in one process, files that do not parse
+   among them; the property text compares format-on-save (a long-lived process) with `templ fmt -fail` in CI (a new
+   one).  For every process whose outcome does not read the state it keeps: the outcome after any history is that of a
+   new process, files a new process accepts as formatted stay byte-identical, the second run agrees with a new
+   process, idempotence of a new process carries over to every history, and a whole run is, file by file, what new
+   processes give. *)
+Theorem C09_stateless_process_history_independent :
+  forall (St : Type) (step : St -> bytes -> St * option bytes) (s0 : St),
+    stateless St step ->
+    history_independent St step s0 /\ formatted_files_stay St step s0 /\ second_run_agrees St step s0 /\
+    idempotent_after_any_history St step s0 /\ runs_are_fresh St step s0.
+Proof.
+  intros St step s0 H. pose proof (stateless_independent St step s0 H) as I.
+  exact (conj I (conj (independent_stay St step s0 I) (conj (independent_second St step s0 I)
+         (conj (independent_idem St step s0 I) (independent_runs St step s0 I))))).
+Qed.
+Print Assumptions C09_stateless_process_history_independent.
+
+(* What the harness observes is the property: it formats sequences of files in one process and compares the outcomes,
+   file by file, with the outcomes in processes of their own (the extracted judgement run_judged_fresh); that holding
+   for every sequence IS history independence - for ANY process, stateless or not. *)
+Theorem C09_history_judgement_is_the_property :
+  forall (St : Type) (step : St -> bytes -> St * option bytes) (s0 : St),
+    history_independent St step s0 <->
+    (forall files, run_judged_fresh (run St step s0 files) (map (fresh St step s0) files) = true).
+Proof.
+  intros St step s0. split.
+  - intros H files. apply run_judged_fresh_iff. apply (independent_runs St step s0 H).
+  - intros H. apply runs_independent. intros files. apply run_judged_fresh_iff. apply H.
+Qed.
+Print Assumptions C09_history_judgement_is_the_property.
+
+(* The formatting step of the commands (parse, then TemplateFile.Write = fmt_write) over a parser that may keep a state:
+   when the parser's verdict and tree are a function of the bytes (the contract the harness checks on the real parser
+   with the history family), every process formats x to fmt_write of x's tree whatever it formatted before, and where
+   that text is read back as a tree without a named cause of instability, formatting it again - after any further
+   history - leaves it byte-identical. *)
+Theorem C09_formatter_after_any_history :
+  forall (St : Type) (parse : St -> bytes -> St * option file) (s0 : St) (tree : bytes -> option file),
+    (forall s x, snd (parse s x) = tree x) ->
+    history_independent St (fmt_step St parse) s0 /\
+    (forall h x, out_after St (fmt_step St parse) s0 h x = option_map fmt_write (tree x)) /\
+    (forall h h' x f, tree x = Some f -> tree (fmt_write f) = Some (reparse f) -> unstable_reasons f = [] ->
+       out_after St (fmt_step St parse) s0 h x = Some (fmt_write f) /\
+       out_after St (fmt_step St parse) s0 h' (fmt_write f) = Some (fmt_write f)).
+Proof.
+  intros St parse s0 tree H.
+  assert (O : forall h x, out_after St (fmt_step St parse) s0 h x = option_map fmt_write (tree x)).
+  { intros h x. unfold out_after, fmt_step. cbn [snd]. rewrite H. reflexivity. }
+  split; [|split].
+  - apply stateless_independent. apply fmt_step_stateless. intros s s' x. rewrite !H. reflexivity.
+  - exact O.
+  - intros h h' x f E1 E2 R. rewrite !O, E1, E2. cbn [option_map]. rewrite (no_reason_stable f R). split; reflexivity.
+Qed.
+Print Assumptions C09_formatter_after_any_history.
+
+(* The statement separates buffer disciplines (model/FmtHist.v: the text-collecting scanner of `script f() { ... }`
+   bodies).  A buffer that is new in every call (the code as it is) or emptied on entry: history independent.  A pooled
+   buffer that is emptied only on the successful return: after one file that ends inside the block, a file that a new
+   process accepts as formatted is rewritten - and rewritten again on every later run that follows such a file. *)
+Theorem C09_buffer_discipline_separated :
+  history_independent bytes (script_step NewBuffer) [] /\
+  history_independent bytes (script_step PooledResetOnEntry) [] /\
+  exists h x, fresh bytes (script_step PooledResetOnSuccess) [] x = Some x /\
+              out_after bytes (script_step PooledResetOnSuccess) [] h x <> Some x.
+Proof.
+  split; [apply stateless_independent, script_step_new_stateless|].
+  split; [apply stateless_independent, script_step_entry_stateless|].
+  exists [bs "script f() {if (a) { b("]. exists (bs "script f() {go();}"). split; [vm_compute; reflexivity|vm_compute; discriminate].
+Qed.
+Print Assumptions C09_buffer_discipline_separated.
+
+(* the witness spelled out: what the process with the success-only reset writes back, and that the judgement sees it *)
+Example C09_ex_pooled_buffer_run :
+  run bytes (script_step PooledResetOnSuccess) [] [bs "script f() {if (a) { b("; bs "script f() {go();}"; bs "script f() {go();}"; bs "templ t() {"]
+    = [None; Some (bs "script f() {if (a) { b(go();}"); Some (bs "script f() {go();}"); None] /\
+  run_judged_fresh (run bytes (script_step PooledResetOnSuccess) [] [bs "script f() {if (a) { b("; bs "script f() {go();}"])
+                   (map (fresh bytes (script_step PooledResetOnSuccess) []) [bs "script f() {if (a) { b("; bs "script f() {go();}"]) = false /\
+  run_judged_fresh (run bytes (script_step NewBuffer) [] [bs "script f() {if (a) { b("; bs "script f() {go();}"])
+                   (map (fresh bytes (script_step NewBuffer) []) [bs "script f() {if (a) { b("; bs "script f() {go();}"]) = true.
+Proof. repeat split; vm_compute; reflexivity. Qed.
